@@ -15,6 +15,11 @@
 //!  (5) `None` iff every pair FIFO is empty, `ExceedsMaxBorrows` iff the model says so,
 //!      `has_samples` agrees with the model.
 //!
+//! Part `conc.threads` (`conc_threads/c01_conc.rs`): perturbed real-thread part, 1..2 publisher
+//! threads and 1..2 subscriber threads (each with its own node and port) act at the same time with
+//! seeded noise at the instrumented atomics; invariant-only oracle over the recorded logs, see the
+//! module header.
+//!
 //! Relaxations (all from documented semantics, DESIGN C01 "Allowed"):
 //!  * across pairs any receive order is accepted, except expired-before-active
 //!    (`subscriber_acquires_samples_of_disconnected_publisher_first`); an expired connection that
@@ -32,12 +37,16 @@ use checks_ice::pubsub::types::*;
 use checks_ice::pubsub::{RunOpts, Variant, cases, enumerate_sequences, logcap, run_case};
 use vcore::{Ctx, Failure, Obs, Spec};
 
+#[path = "conc_threads/c01_conc.rs"]
+mod conc;
+
 const SPEC: Spec = Spec {
     prop: "C01",
     level: "exploration",
-    rule: "histories of API calls (create/drop publisher and subscriber, loan, write, send, send_copy, drop loan, receive, drop sample, has_samples, update_connections) on 1..3 publishers and 1..3 subscribers over a QoS record (buffer 1..4, history 0..3, borrow 1..3, overflow on/off, per-port buffer/history request/max loans/backpressure handling, u64 and [u8] payloads), executed against the real ports and a reference model with the lazy connection rule; bounded-exhaustive part = every no-op-free sequence of length L over a reduced alphabet (send_copy, receive on first/last subscriber, drop first/last sample, create subscriber with default / zero history request, drop subscriber, publisher update) for a 22-point QoS grid; random part = proptest histories on local (many) and ipc (fewer). Non-trivial = at least one receive returned a sample AND (an overflow eviction happened OR a late joiner got history OR a port was dropped with undelivered data OR one subscriber received from >= 2 publishers). Distinct = hash of (service variant part, QoS record, op sequence).",
+    rule: "histories of API calls (create/drop publisher and subscriber, loan, write, send, send_copy, drop loan, receive, drop sample, has_samples, update_connections) on 1..3 publishers and 1..3 subscribers over a QoS record (buffer 1..4, history 0..3, borrow 1..3, overflow on/off, per-port buffer/history request/max loans/backpressure handling, u64 and [u8] payloads), executed against the real ports and a reference model with the lazy connection rule; bounded-exhaustive part = every no-op-free sequence of length L over a reduced alphabet (send_copy, receive on first/last subscriber, drop first/last sample, create subscriber with default / zero history request, drop subscriber, publisher update) for a 22-point QoS grid; random part = proptest histories on local (many) and ipc (fewer). Non-trivial = at least one receive returned a sample AND (an overflow eviction happened OR a late joiner got history OR a port was dropped with undelivered data OR one subscriber received from >= 2 publishers). Distinct = hash of (service variant part, QoS record, op sequence). conc.threads: a case = (local|ipc, buffer 1..4, borrow 1..3, overflow on/off, DiscardData or (no overflow) blocking RetryUntilDelivered, 1..2 publisher threads x 1..2 subscriber threads each owning its node and port, all ports created before the start barrier, history 0, 50..150 samples per publisher (thorough ..400) sent in seeded bursts by send_copy or loan+send, subscriber hold window and release style, tight or yielding poll loop, noise level 0..3 at the instrumented atomics, seed); oracle = invariants over the recorded logs after quiescence (per pair strictly increasing subsequence of the sent sequence, intact payload, origin; no overflow: per sample number of receiving subscribers == value returned by send; blocking: == number of subscribers; overflow: newest min(sent, buffer) samples reach every subscriber; no failing call, no alarm log line), nothing depends on time; non-trivial = a receive overlapped a send and a sample was received.",
     assumptions: &[
-        "single-threaded histories; concurrent send/receive on one connection is C03's domain",
+        "exhaustive / random parts: single-threaded histories; the lock-free queues themselves are C03's domain",
+        "conc.threads: real threads, not bit-reproducible (a replay runs the case up to 30 times); ports neither appear nor vanish during a run; a case that does not finish within 240 s (normal: well under a second) makes the run inconclusive, never a violation",
         "RetryUntilDelivered is generated only together with a backpressure handler that gives up after k <= 2 retries, so that no call can block",
         "the expired-connection buffer of a subscriber (default 128) is never filled by histories of <= 200 ops",
     ],
@@ -112,6 +121,7 @@ fn body(ctx: &mut Ctx) {
     let n_ipc = ctx.scale(4_000, 40_000);
     ctx.proptest("random.ipc", cases(n_ipc), case_strategy(Weights::DELIVERY, max_ops), |c, obs| run(Variant::Ipc, c, obs));
     logcap::uninstall_level();
+    conc::part(ctx);
 }
 
 fn main() {
